@@ -36,6 +36,19 @@ def rows_of(df, cols):
     return [[int(v) for v in row] for row in df[cols].to_numpy()]
 
 
+_door = [0]
+
+
+def transitions(traj, structure, floating, **kw):
+    """The site analysis through one of its two public doors, alternately: Trajectory.transitions_between_sites (wrapper, positional
+    arguments) and the classmethod Transitions.from_trajectory (keywords).  Both promise the same result."""
+    from gemdat import Transitions
+    _door[0] += 1
+    if _door[0] % 2:
+        return traj.transitions_between_sites(structure, floating, **kw)
+    return Transitions.from_trajectory(trajectory=traj, sites=structure, floating_specie=floating, **kw)
+
+
 def jumps_or_none(transitions, m):
     try:
         return transitions.jumps(minimal_residence=m)
@@ -99,7 +112,7 @@ def record_pipeline(b, world, intended, *, inner_fraction, ms=(0,), ks=(), radiu
                     traj=None, floating='Li', overlap=False):
     """Run the pipeline on the real code; returns list of records (dicts) for TraceSites."""
     recs = []
-    want = want or {'Hist', 'Events', 'Prev', 'Next', 'Jumps', 'Mono', 'Matrix', 'Counter', 'Edges', 'Occ',
+    want = want or {'Hist', 'Events', 'Counts', 'Prev', 'Next', 'Jumps', 'Mono', 'Matrix', 'Counter', 'Edges', 'Occ',
                     'AtomLoc', 'OccType', 'EdgeCounts', 'JumpDiff', 'Split', 'Rates', 'TrajSplit'}
 
     def add(act, **kw):
@@ -112,8 +125,7 @@ def record_pipeline(b, world, intended, *, inner_fraction, ms=(0,), ks=(), radiu
         traj = world.trajectory(intended)
     radius = world.radius if radius is None else radius
     gen.perturb(traj, world.rng)
-    tr = traj.transitions_between_sites(world.structure, floating, site_radius=radius,
-                                        site_inner_fraction=inner_fraction)
+    tr = transitions(traj, world.structure, floating, site_radius=radius, site_inner_fraction=inner_fraction)
     H = hist_of(tr.states, tr.inner_states)
     T, A, S = len(H), len(H[0]), len(world.structure)
     if intended is not None:
@@ -124,6 +136,7 @@ def record_pipeline(b, world, intended, *, inner_fraction, ms=(0,), ks=(), radiu
         add('Hist', hist=H)
     ev_rows = rows_of(tr.events, EV_COLS)
     add('Events', rows=ev_rows)
+    add('Counts', n_events=int(tr.n_events), n_states=int(tr.n_states), n_floating=int(tr.n_floating), n_sites=int(tr.n_sites), S=S)
     add('Prev', arr=np.asarray(tr.states_prev()).astype(int).tolist())
     add('Next', arr=np.asarray(tr.states_next()).astype(int).tolist())
     add('Matrix', kind='trans', m=0, S=S, M=np.asarray(tr.matrix()).astype(int).tolist(), njumps=0)
